@@ -90,21 +90,45 @@ def trace_record(tid, w, props, k=0, infinity=10000):
             "ev": [slim_event(e) for e in w.events]}
 
 
-def judge(records, what="AlgoMon"):
-    """-> ({tid: verdict}, rejected {tid: at}, TlcResult)"""
-    if not records:
-        raise MachineryError("no trace to judge")
+def _judge_chunk(records, what):
     f = scratch() / ("traces_%d.ndjson" % random.getrandbits(40))
     with open(f, "w") as fh:
         for r in records:
             fh.write(json.dumps(r) + "\n")
-    res = tlc.run(what, JUDGE_CFG, env={"TRACE_FILE": str(f)}, workers=1, heap="6g")
-    verdicts = {}
-    for (v,) in res.tagged("VERDICT"):
-        verdicts[v["tid"]] = v
-    rejected = {v["tid"]: v["at"] for (v,) in res.tagged("REJECT")}
+    res = tlc.run(what, JUDGE_CFG, env={"TRACE_FILE": str(f)}, workers=1, heap="3g")
+    f.unlink()
+    return res
+
+
+def judge(records, what="AlgoMon", procs=8):
+    """-> ({tid: verdict}, rejected {tid: at}, TlcResult).  The batch is split over several TLC processes (each single-worker:
+    the per-trace progress registers are per worker); the returned TlcResult carries the summed state counts."""
+    if not records:
+        raise MachineryError("no trace to judge")
+    from concurrent.futures import ThreadPoolExecutor
+    nev = sum(len(r["ev"]) for r in records)
+    k = max(1, min(procs, nev // 4000 + 1, len(records)))
+    # balance chunks by number of events
+    chunks = [[] for _ in range(k)]
+    load = [0] * k
+    for r in sorted(records, key=lambda r: -len(r["ev"])):
+        j = load.index(min(load))
+        chunks[j].append(r)
+        load[j] += len(r["ev"])
+    with ThreadPoolExecutor(max_workers=k) as ex:
+        results = list(ex.map(lambda c: _judge_chunk(c, what), chunks))
+    verdicts, rejected = {}, {}
+    for res in results:
+        for (v,) in res.tagged("VERDICT"):
+            verdicts[v["tid"]] = v
+        for (v,) in res.tagged("REJECT"):
+            rejected[v["tid"]] = v["at"]
     missing = [r["tid"] for r in records if r["tid"] not in verdicts and r["tid"] not in rejected]
     if missing:
-        raise MachineryError("judge gave no verdict for traces %s\n%s" % (missing[:5], res.out[-2000:]))
-    f.unlink()
-    return verdicts, rejected, res
+        raise MachineryError("judge gave no verdict for traces %s\n%s" % (missing[:5], results[0].out[-2000:]))
+    total = results[0]
+    total.generated = sum(r.generated for r in results)
+    total.distinct = sum(r.distinct for r in results)
+    total.wall = max(r.wall for r in results)
+    total.cmd += "   (x%d processes over a split batch)" % k
+    return verdicts, rejected, total
